@@ -105,6 +105,8 @@ Definition val_encodable (f : tfield) (v : tval) : Prop :=
   | FHexStr, VBytes b => zlen b <= 255
   | FB64Tok maxlen, VBytes b => zlen b <= maxlen
   | FB64RestOpt, VBytes b => zlen b <= 65535
+  | FMac, VBytes b => zlen b <= 65535
+  | FOther, VBytes b => zlen b <= 65535
   | _, _ => True
   end.
 
@@ -125,10 +127,18 @@ Proof.
     apply G; [lia|exact Ed].
 Qed.
 
+Lemma get_uint_range m st n st' : get_uint m st 10 = Ok (n, st') -> 0 <= n <= m.
+Proof.
+  unfold get_uint, as_uint.
+  destruct (get_unescaped st) as [[t s1]| |]; cbn [bind fst snd]; try discriminate.
+  destruct (as_int t 10) as [z| |]; cbn [bind fst snd]; try discriminate.
+  destruct ((z <? 0) || (z >? m)) eqn:E; cbn [bind fst snd]; try discriminate. intros H; inversion H; subst. lia.
+Qed.
+
 Theorem parse_field_encodable c f st raw st' v :
   parse_field c f st = Ok (raw, st') -> ctor_field f raw = Ok v -> val_encodable f v.
 Proof.
-  destruct f as [maxv| |tokmax ctormax ne| | |sc| |v6| | | | | |k| |maxc| |en| | | | |bmax| | | |ipsec|]; cbn [parse_field]; intros H Hc.
+  destruct f as [maxv| |tokmax ctormax ne| | |sc| |v6| | | | | |k| |maxc| |en| | | | |bmax| | | |ipsec| | |]; cbn [parse_field]; intros H Hc.
   - unfold get_uint, as_uint in H.
     destruct (get_unescaped st) as [[t s1]| |]; cbn [bind fst snd] in H; try discriminate.
     destruct (as_int t 10) as [z| |]; cbn [bind fst snd] in H; try discriminate.
@@ -196,6 +206,22 @@ Proof.
     destruct (zlen b >? 65535) eqn:E; try discriminate. inversion Hc; subst. cbn [val_encodable]. lia.
   - destruct v; exact Logic.I.
   - destruct v; exact Logic.I.
+  - (* FMac *)
+    destruct (get_uint max16 st 10) as [[n s1]| |] eqn:En; cbn [bind fst snd] in H; try discriminate.
+    destruct (get_string s1 0) as [[t s2]| |]; cbn [bind fst snd] in H; try discriminate.
+    destruct (b64decode_str t) as [b| |]; cbn [bind fst snd] in H; try discriminate.
+    destruct (zlen b =? n) eqn:E; cbn [negb] in H; try discriminate. inversion H; subst.
+    cbn [ctor_field] in Hc. inversion Hc; subst. cbn [val_encodable].
+    apply Z.eqb_eq in E. pose proof (get_uint_range _ _ _ _ En). unfold max16 in *. lia.
+  - (* FOther *)
+    destruct (get_uint max16 st 10) as [[n s1]| |] eqn:En; cbn [bind fst snd] in H; try discriminate.
+    destruct (n >? 0).
+    + destruct (get_string s1 0) as [[t s2]| |]; cbn [bind fst snd] in H; try discriminate.
+      destruct (b64decode_str t) as [b| |]; cbn [bind fst snd] in H; try discriminate.
+      destruct (zlen b =? n) eqn:E; cbn [negb] in H; try discriminate. inversion H; subst.
+      cbn [ctor_field] in Hc. inversion Hc; subst. cbn [val_encodable].
+      apply Z.eqb_eq in E. pose proof (get_uint_range _ _ _ _ En). unfold max16 in *. lia.
+    + inversion H; subst. cbn [ctor_field] in Hc. inversion Hc; subst. cbn [val_encodable]. unfold zlen. cbn. lia.
 Qed.
 
 (* names accepted from text satisfy the DNS limits (hence to_wire with an origin cannot fail on length) *)
